@@ -213,7 +213,7 @@ Arguments SmFinished {State}.
 
 (* ------------------------------------------------------------------ report order
    sorted(failed, key=lambda t: (t[0], _trace_sort_key(t[1]))), stable.
-   _trace_sort_key = re.split('([0-9]+)', name) with the digit runs as ints:
+   _trace_sort_key = (re.split('([0-9]+)', name) with the digit runs as ints, name):
    alternating text / number chunks, first and last chunk text (maybe empty). *)
 Inductive chunk := CStr (s : text) | CNum (n : Z).
 
@@ -258,11 +258,19 @@ Fixpoint chunks_cmp (a b : list chunk) : comparison :=
   | x :: a', y :: b' => match chunk_cmp x y with Eq => chunks_cmp a' b' | c => c end
   end.
 
+(* _trace_sort_key(w) = (natural chunks, w): the raw name breaks ties between names that
+   differ only in leading zeros ("x1" / "x01"), so the order is total *)
+Definition key_cmp (n m : name) : comparison :=
+  match chunks_cmp (natkey n) (natkey m) with
+  | Eq => text_cmp n m
+  | c => c
+  end.
+
 Definition failure_cmp (f g : nat * name * Z * Z) : comparison :=
   let '(i, n, _, _) := f in
   let '(j, m, _, _) := g in
   match Nat.compare i j with
-  | Eq => chunks_cmp (natkey n) (natkey m)
+  | Eq => key_cmp n m
   | c => c
   end.
 
@@ -287,5 +295,5 @@ Definition report (failed : list (nat * name * Z * Z)) : list (nat * name * Z * 
 
 (* names in the order print_trace / print_vcd list them *)
 Definition name_leb (a b : name) : bool :=
-  match chunks_cmp (natkey a) (natkey b) with Gt => false | _ => true end.
+  match key_cmp a b with Gt => false | _ => true end.
 Definition sort_names (l : list name) : list name := isort name_leb l.
